@@ -743,6 +743,23 @@ def merge_measure_contents(notes, other, measure_start, segment_end=None):
     return result
 
 
+def pedal_stop_element(direction):
+    """The direction element that ends a pedal direction."""
+    e0e = etree.Element("direction", placement="below")
+    e1e = etree.SubElement(e0e, "direction-type")
+    if isinstance(direction, score.SustainPedalDirection):
+        pedal_kwargs = {}
+        if direction.line:
+            pedal_kwargs["line"] = "yes"
+        else:
+            pedal_kwargs["sign"] = "yes"
+        etree.SubElement(e1e, "pedal", type="stop", **pedal_kwargs)
+    if direction.staff is not None and direction.staff != 1:
+        e3e = etree.SubElement(e0e, "staff")
+        e3e.text = str(direction.staff)
+    return e0e
+
+
 def do_directions(part, start, end, counter):
     result = []
 
@@ -768,47 +785,28 @@ def do_directions(part, start, end, counter):
             # Pedal directions create an element for start
             # and an element for ending
 
-            # Use end of the segment as ending of the pedal sign
-            ped_end = end if direction.end is None else direction.end
-
             # Create a pedal start element
-            if direction.start.t >= start.t:
-                e0s = etree.Element("direction", placement="below")
-                e1s = etree.SubElement(e0s, "direction-type")
-                # For sustain pedals
-                if isinstance(direction, score.SustainPedalDirection):
-                    pedal_kwargs = {}
-                    if direction.line:
-                        pedal_kwargs["line"] = "yes"
-                    # For Flake8 (ignore unused variable), since
-                    # etree.SubElement adds e2s to e1s
-                    e2s = etree.SubElement(  # noqa: F841
-                        e1s, "pedal", type="start", **pedal_kwargs
-                    )
-                if direction.staff is not None and direction.staff != 1:
-                    e3s = etree.SubElement(e0s, "staff")
-                    e3s.text = str(direction.staff)
-                elem = (direction.start.t, None, e0s)
-                result.append(elem)
-            if ped_end.t <= end.t:
-                e0e = etree.Element("direction", placement="below")
-                e1e = etree.SubElement(e0e, "direction-type")
-                if isinstance(direction, score.SustainPedalDirection):
-                    pedal_kwargs = {}
-                    if direction.line:
-                        pedal_kwargs["line"] = "yes"
-                    else:
-                        pedal_kwargs["sign"] = "yes"
-                    # For Flake8 (ignore unused variable), since
-                    # etree.SubElement adds e2e to e1e
-                    e2e = etree.SubElement(  # noqa: F841
-                        e1e, "pedal", type="end", **pedal_kwargs
-                    )
-                if direction.staff is not None and direction.staff != 1:
-                    e3e = etree.SubElement(e0e, "staff")
-                    e3e.text = str(direction.staff)
-                elem = (ped_end.t, None, e0e)
-                result.append(elem)
+            e0s = etree.Element("direction", placement="below")
+            e1s = etree.SubElement(e0s, "direction-type")
+            # For sustain pedals
+            if isinstance(direction, score.SustainPedalDirection):
+                pedal_kwargs = {}
+                if direction.line:
+                    pedal_kwargs["line"] = "yes"
+                # For Flake8 (ignore unused variable), since
+                # etree.SubElement adds e2s to e1s
+                e2s = etree.SubElement(  # noqa: F841
+                    e1s, "pedal", type="start", **pedal_kwargs
+                )
+            if direction.staff is not None and direction.staff != 1:
+                e3s = etree.SubElement(e0s, "staff")
+                e3s.text = str(direction.staff)
+            elem = (direction.start.t, None, e0s)
+            result.append(elem)
+            # Use end of the segment as ending of a pedal sign without end
+            # (the stop of a pedal with an end is written where it ends, below)
+            if direction.end is None:
+                result.append((end.t, None, pedal_stop_element(direction)))
         else:
             e0 = etree.Element("direction")
             e1 = etree.SubElement(e0, "direction-type")
@@ -859,6 +857,17 @@ def do_directions(part, start, end, counter):
         include_subclasses=True,
         mode="ending",
     )
+
+    pedal_directions = part.iter_all(
+        score.PedalDirection,
+        start.next,
+        end.next,
+        include_subclasses=True,
+        mode="ending",
+    )
+    for direction in pedal_directions:
+        if (direction.raw_text or direction.text) in PEDAL_DIRECTIONS:
+            ending.append((direction.end.t, None, pedal_stop_element(direction)))
 
     for direction in directions:
         text = direction.raw_text or direction.text
